@@ -55,10 +55,13 @@ def generate(repo):
     from translate import braces
     end = braces(src, m.end() - 1)
     body = strip_comments(src[m.end():end - 1])
-    m2 = re.search(r"let\s+escape\s*=\s*\|\s*s\s*:\s*&str\s*\|\s*s((?:\s*\.\s*replace\s*\(\s*'(?:\\.|[^'\\])'\s*,\s*\"(?:\\.|[^\"\\])*\"\s*\))+)\s*;", body)
+    # closure body either bare (`|s: &str| s.replace(..)…;`) or in a block (`|s: &str| { s.replace(..)… };`)
+    m2 = re.search(r"let\s+escape\s*=\s*\|\s*s\s*:\s*&str\s*\|\s*(\{\s*)?s((?:\s*\.\s*replace\s*\(\s*'(?:\\.|[^'\\])'\s*,\s*\"(?:\\.|[^\"\\])*\"\s*\))+)\s*(\}\s*)?;", body)
     if not m2:
         raise TranslateError("%s: `let escape = |s: &str| s.replace('c', \"..\")...;` not recognised" % REL)
-    chain = re.findall(r"\.\s*replace\s*\(\s*'((?:\\.|[^'\\]))'\s*,\s*\"((?:\\.|[^\"\\])*)\"\s*\)", m2.group(1))
+    if bool(m2.group(1)) != bool(m2.group(3)):
+        raise TranslateError("%s: unbalanced closure block in `escape`" % REL)
+    chain = re.findall(r"\.\s*replace\s*\(\s*'((?:\\.|[^'\\]))'\s*,\s*\"((?:\\.|[^\"\\])*)\"\s*\)", m2.group(2))
     if not chain:
         raise TranslateError("%s: empty replace chain" % REL)
     rows = []
